@@ -1111,7 +1111,13 @@ func isAppendOne(v ssa.Value, ref string) bool {
 // for is the empty list or append(<another value of the same family>, one element). appended reports whether some
 // value is such an append.
 func accumulatedList(v ssa.Value) (ok bool, appended bool) {
-	family := map[ssa.Value]bool{}
+	ok, appended, _ = accumulatedListFamily(v)
+	return
+}
+
+// accumulatedListFamily is accumulatedList that also returns the values (phi nodes, appends, the empty list) involved.
+func accumulatedListFamily(v ssa.Value) (ok bool, appended bool, family map[ssa.Value]bool) {
+	family = map[ssa.Value]bool{}
 	var leaves []ssa.Value
 	var walk func(x ssa.Value, d int)
 	walk = func(x ssa.Value, d int) {
@@ -1135,7 +1141,7 @@ func accumulatedList(v ssa.Value) (ok bool, appended bool) {
 	}
 	walk(v, 0)
 	if len(leaves) == 0 {
-		return false, false
+		return false, false, family
 	}
 	for _, l := range leaves {
 		if isEmptyList(l) {
@@ -1143,15 +1149,15 @@ func accumulatedList(v ssa.Value) (ok bool, appended bool) {
 		}
 		ap, isCall := l.(*ssa.Call)
 		if !isCall {
-			return false, false
+			return false, false, family
 		}
 		b, isB := ap.Call.Value.(*ssa.Builtin)
 		if !isB || b.Name() != "append" || len(ap.Call.Args) != 2 || !family[strip(ap.Call.Args[0])] || len(varargs(ap.Call.Args[1])) != 1 {
-			return false, false
+			return false, false, family
 		}
 		appended = true
 	}
-	return true, appended
+	return true, appended, family
 }
 
 func c14OrderedLists(c *Ctx) {
